@@ -168,20 +168,20 @@ def joinC (l : List String) : String := ",".intercalate l
 
 def showOV : OV → String
   | .i v => toString v
-  | .d full _ _ => "[" + joinC ((sortInts (full.map (·.1))).map fun j => s!"{j}:{(kvGet full j).getD 0}") + "]"
+  | .d full _ _ => "[" ++ joinC ((sortInts (full.map (·.1))).map fun j => s!"{j}:{(kvGet full j).getD 0}") ++ "]"
 
 def showOVDelta : OV → String
   | .i v => toString v
   | .d _ rem mod =>
-    "[" + joinC ((sortInts rem).map (fun j => s!"-{j}") ++
-                 (sortInts (mod.map (·.1))).map fun j => s!"{j}:{(kvGet mod j).getD 0}") + "]"
+    "[" ++ joinC ((sortInts rem).map (fun j => s!"-{j}") ++
+                 (sortInts (mod.map (·.1))).map fun j => s!"{j}:{(kvGet mod j).getD 0}") ++ "]"
 
 def findKV {β : Type} (l : List (Int × β)) (k : Int) : Option β := (l.find? (·.1 == k)).map (·.2)
 
 /-- `{-k,..,k=v,..}` -/
 def showDelta {β : Type} (rem : List Int) (mod : List (Int × β)) (sh : β → String) : String :=
-  "{" + joinC ((sortInts (dedup rem)).map (fun k => s!"-{k}") ++
-               (sortInts (dedup (mod.map (·.1)))).filterMap fun k => (findKV mod.reverse k).map fun v => s!"{k}={sh v}") + "}"
+  "{" ++ joinC ((sortInts (dedup rem)).map (fun k => s!"-{k}") ++
+               (sortInts (dedup (mod.map (·.1)))).filterMap fun k => (findKV mod.reverse k).map fun v => s!"{k}={sh v}") ++ "}"
 
 def showEvents (keyed : Bool) (stops starts : List Int) : String :=
   let f := fun (sign : String) (l : List Int) =>
@@ -198,14 +198,14 @@ def showVal (m : M Int CS OV Int) : String :=
     match m.ent s with
     | some e => if e.started then some (e.key, e.outv) else none
     | none => none
-  "{" + joinC ((sortInts (items.map (·.1))).map fun k =>
+  "{" ++ joinC ((sortInts (items.map (·.1))).map fun k =>
     match findKV items k with
     | some (some v) => s!"{k}={showOV v}"
-    | _ => s!"{k}=_") + "}"
+    | _ => s!"{k}=_") ++ "}"
 
 def showErrVal (m : M Int CS OV Int) : String :=
   let items := errDict m
-  "{" + joinC ((sortInts (items.map (·.1))).map fun k => s!"{k}={(findKV items k).getD 0}") + "}"
+  "{" ++ joinC ((sortInts (items.map (·.1))).map fun k => s!"{k}={(findKV items k).getD 0}") ++ "}"
 
 def slotOfStarted (m : M Int CS OV Int) (k : Int) : Option Nat :=
   (List.range m.cap).find? fun s => match m.ent s with | some e => e.started && e.key == k | none => false
